@@ -33,6 +33,7 @@ type C10Plan struct {
 	Prior     *Cfg  `json:"prior,omitempty"`
 	PriorReqs []Req `json:"prior_reqs,omitempty"`
 	ViaNil    bool  `json:"via_nil,omitempty"`
+	ViaZero   bool  `json:"via_zero,omitempty"` // no prior configuration: a zero-value middleware, reconfigured once
 }
 
 type c10 struct{}
@@ -151,6 +152,9 @@ func (c10) Gen(r *R, tier string) any {
 			}
 			p.PriorReqs = append(p.PriorReqs, q)
 		}
+	}
+	if p.Prior == nil {
+		p.ViaZero = r.P(0.3)
 	}
 	suite := probeSuite(p.Cfg)
 	if p.Prior != nil { // what the prior configuration allowed is asked for again under the new one
@@ -312,11 +316,11 @@ func (c10) Exec(plan any, c *Ctx) *Violation {
 				ps.do(q)
 			}
 			if p.ViaNil {
-				m.Reconfigure(nil)
+				reconfN(m, nil)
 			}
-			clockTick("the reconfiguration")
+			betweenSteps("the reconfiguration")
 			cc := p.Cfg.Config()
-			rerr = m.Reconfigure(&cc)
+			rerr = reconfN(m, &cc)
 		}); pn != "" {
 			return &Violation{Class: "panic", Key: "prior", Detail: "history before the cache world: " + pn}
 		}
@@ -325,6 +329,14 @@ func (c10) Exec(plan any, c *Ctx) *Violation {
 			return nil
 		}
 		c.hit("state_reached_via_prior_configuration")
+	} else if p.ViaZero {
+		m = zeroMW()
+		cc := p.Cfg.Config()
+		var rerr error
+		if pn := catch(func() { rerr = m.Reconfigure(&cc) }); pn != "" || rerr != nil {
+			c.hit("generator_rejected")
+			return nil
+		}
 	} else {
 		var err error
 		var pan any
